@@ -1,56 +1,1298 @@
-//! scratch experiment (to be replaced): does the heap merge depend on the source order when later messages tie?
-use adlt::dlt::DltMessage;
-use adlt::utils::sorting_multi_readeriterator::SortingMultiReaderIterator;
+//! C14 — `adlt convert` (binary of the working tree, path in VERIF_ADLT_BIN) vs Convert/Select.v
+//!
+//! One case = one invocation of `adlt convert` on generated DLT files.  A scenario = a clean-boot trace of a few
+//! ECUs (ground truth: every message knows its ECU, boot, APID, CTID) distributed over several files (same /
+//! different / overlapping ECU sets, consecutive or overlapping in time, garbage between the messages, empty,
+//! garbage-only and missing files, the same file named twice / under another spelling of its path).
+//! Observation of one invocation:
+//!   T [L status; T baseline; T screen; T file; T listing]
+//!   baseline = uids in the order of `adlt convert -s <same file arguments>` (the unfiltered input as the tool
+//!              numbers it; a second process, same arguments),
+//!   screen   = (index, uid) of every stdout message line, file = uids re-read from the -o file with the library's
+//!              DltMessageIterator (T [] if no -o), listing = (id, ecu, nr_msgs) rows of the lifecycle listing
+//!              (printed when no style is given), sorted by id.
+//! Oracle = the property text: the emitted messages are exactly the baseline messages satisfying window (on the
+//! baseline index), lifecycle selection (ground truth boots; ids = rank of first appearance in the baseline) and
+//! the filter set (literal criteria evaluated here), each once, in baseline order (as a set with --sort); the -o
+//! file re-reads to exactly those messages, field by field; the baseline contains every message of every named
+//! file exactly once and keeps the order inside each file; naming the files in another order gives the same
+//! baseline when the files' first messages have distinct reception times.
+use adlt::dlt::{DltChar4, DltExtendedHeader, DltMessage, DltStandardHeader};
+use adlt::utils::DltMessageIterator;
+use std::collections::{BTreeMap, BTreeSet, HashMap};
+use std::io::Write as _;
+use std::path::{Path, PathBuf};
+use std::process::{Command, Stdio};
+use std::sync::{Arc, Mutex};
+use std::time::{Duration, Instant};
 use vharness::*;
 
-fn run(its: &[Vec<u64>], order: &[usize]) -> Vec<(usize, usize)> {
-    let b: Vec<Box<dyn Iterator<Item = DltMessage>>> = order
-        .iter()
-        .map(|&s| {
-            let v: Vec<DltMessage> = its[s]
-                .iter()
-                .enumerate()
-                .map(|(p, rt)| {
-                    let mut m = dltgen::plain_msg(0, s as u8, *rt, p as u32);
-                    m.lifecycle = s as u32;
-                    m
-                })
-                .collect();
-            Box::new(v.into_iter()) as Box<dyn Iterator<Item = DltMessage>>
-        })
-        .collect();
-    SortingMultiReaderIterator::new(0, b).map(|m| (m.lifecycle as usize, m.timestamp_dms as usize)).collect()
+const RHO: u64 = 1_600_000_000_000_000; // us
+const SCAN: usize = 512 * 1024;
+
+// ------------------------------------------------------------------ ids
+fn ecu_id(n: u8) -> [u8; 4] {
+    [b'E', b'C', b'0' + (n / 10) % 10, b'0' + n % 10]
+}
+/// application / context ids: 0 = four zero bytes (only in filters), 1,2 = four characters, 3 = two characters
+fn apid_id(n: u8) -> [u8; 4] {
+    match n {
+        0 => [0; 4],
+        3 => [b'A', b'3', 0, 0],
+        _ => [b'A', b'P', b'0', b'0' + n],
+    }
+}
+fn ctid_id(n: u8) -> [u8; 4] {
+    match n {
+        0 => [0; 4],
+        3 => [b'C', b'3', 0, 0],
+        _ => [b'C', b'T', b'0', b'0' + n],
+    }
+}
+fn id_str(b: &[u8; 4]) -> String {
+    b.iter().take_while(|c| **c != 0).map(|c| *c as char).collect()
 }
 
-fn main() {
-    let mut rng = Rng::new(1);
-    let mut found = 0;
-    for _ in 0..200000 {
-        let n = 4usize;
-        let mut its = vec![];
-        for s in 0..n {
-            let len = rng.range(1, 2);
-            let mut t = 100 + s as u64; // distinct first times
-            let mut v = vec![t];
-            for _ in 1..len {
-                t = 200 + rng.below(3);
-                v.push(t);
-            }
-            v.sort();
-            its.push(v);
+// ------------------------------------------------------------------ scenario
+#[derive(Clone, Debug)]
+struct M {
+    ecu: u8,
+    rt: u64,
+    ts: u32, // 0.1 ms
+    mcnt: u8,
+    ext: bool,
+    apid: u8,
+    ctid: u8,
+    boot: u32,
+    fill: u32,
+}
+impl M {
+    fn json(&self) -> Value {
+        json!([self.ecu, self.rt, self.ts, self.mcnt, self.ext, self.apid, self.ctid, self.boot, self.fill])
+    }
+    fn from_json(v: &Value) -> M {
+        M {
+            ecu: v[0].as_u64().unwrap() as u8,
+            rt: v[1].as_u64().unwrap(),
+            ts: v[2].as_u64().unwrap() as u32,
+            mcnt: v[3].as_u64().unwrap() as u8,
+            ext: v[4].as_bool().unwrap(),
+            apid: v[5].as_u64().unwrap() as u8,
+            ctid: v[6].as_u64().unwrap() as u8,
+            boot: v[7].as_u64().unwrap() as u32,
+            fill: v[8].as_u64().unwrap() as u32,
         }
-        let id: Vec<usize> = (0..n).collect();
-        let mut rev = id.clone();
-        for i in (1..rev.len()).rev() { let j = rng.below(i as u64 + 1) as usize; rev.swap(i, j); }
-        let a = run(&its, &id);
-        let b = run(&its, &rev);
-        if a != b {
-            println!("{:?}\n  {:?}\n  {:?}", its, a, b);
-            found += 1;
-            if found > 3 {
-                break;
+    }
+    fn build(&self, uid: u32) -> DltMessage {
+        let mut payload = uid.to_le_bytes().to_vec();
+        payload.extend(std::iter::repeat(0x55u8).take(self.fill as usize));
+        let ext = if self.ext {
+            Some(DltExtendedHeader { verb_mstp_mtin: 4 << 4, noar: 0, apid: DltChar4::from_buf(&apid_id(self.apid)), ctid: DltChar4::from_buf(&ctid_id(self.ctid)) })
+        } else {
+            None
+        };
+        DltMessage {
+            index: 0,
+            reception_time_us: self.rt,
+            ecu: DltChar4::from_buf(&ecu_id(self.ecu)),
+            timestamp_dms: self.ts,
+            standard_header: DltStandardHeader { htyp: 0x20 | 0x10 | if self.ext { 1 } else { 0 }, len: 0, mcnt: self.mcnt },
+            extended_header: ext,
+            payload,
+            payload_text: None,
+            lifecycle: 0,
+        }
+    }
+}
+#[derive(Clone, Debug)]
+struct FileSpec {
+    msgs: Vec<u32>,         // uids
+    garbage: Vec<Vec<u8>>,  // msgs.len() + 1 runs: before each message and at the end
+    missing: bool,          // never created
+}
+#[derive(Clone, Debug)]
+struct Scn {
+    msgs: Vec<M>, // uid = position
+    files: Vec<FileSpec>,
+}
+impl Scn {
+    fn json(&self) -> Value {
+        json!({"msgs": self.msgs.iter().map(|m| m.json()).collect::<Vec<_>>(),
+               "files": self.files.iter().map(|f| json!({"msgs": f.msgs, "garbage": f.garbage, "missing": f.missing})).collect::<Vec<_>>()})
+    }
+    fn from_json(v: &Value) -> Scn {
+        Scn {
+            msgs: v["msgs"].as_array().unwrap().iter().map(M::from_json).collect(),
+            files: v["files"]
+                .as_array()
+                .unwrap()
+                .iter()
+                .map(|f| FileSpec {
+                    msgs: serde_json::from_value(f["msgs"].clone()).unwrap(),
+                    garbage: serde_json::from_value(f["garbage"].clone()).unwrap(),
+                    missing: f["missing"].as_bool().unwrap(),
+                })
+                .collect(),
+        }
+    }
+    fn file_bytes(&self, k: usize) -> (Vec<u8>, usize) {
+        // bytes and the number of messages that end within the first SCAN bytes
+        let f = &self.files[k];
+        let mut out = vec![];
+        let mut scan = 0;
+        for (i, uid) in f.msgs.iter().enumerate() {
+            out.extend_from_slice(&f.garbage[i]);
+            self.msgs[*uid as usize].build(*uid).to_write(&mut out).unwrap();
+            if out.len() <= SCAN {
+                scan = i + 1;
+            }
+        }
+        out.extend_from_slice(&f.garbage[f.msgs.len()]);
+        (out, scan)
+    }
+    fn write_files(&self, dir: &Path) {
+        std::fs::create_dir_all(dir).unwrap();
+        for k in 0..self.files.len() {
+            if !self.files[k].missing {
+                std::fs::write(dir.join(format!("f{}.dlt", k)), self.file_bytes(k).0).unwrap();
             }
         }
     }
-    println!("found {}", found);
+    fn first_rt(&self, k: usize) -> Option<u64> {
+        let f = &self.files[k];
+        if f.missing || self.file_bytes(k).1 == 0 {
+            None
+        } else {
+            Some(self.msgs[f.msgs[0] as usize].rt)
+        }
+    }
+}
+
+// ------------------------------------------------------------------ options
+#[derive(Clone, Debug, PartialEq)]
+struct Flt {
+    kind: u8, // 0 positive, 1 negative, 2 marker
+    enabled: bool,
+    ecu: Vec<u8>, // empty = no criterion, else alternatives
+    apid: Option<u8>,
+    ctid: Option<u8>,
+}
+impl Flt {
+    fn json(&self) -> Value {
+        json!([self.kind, self.enabled, self.ecu, self.apid, self.ctid])
+    }
+    fn from_json(v: &Value) -> Flt {
+        Flt {
+            kind: v[0].as_u64().unwrap() as u8,
+            enabled: v[1].as_bool().unwrap(),
+            ecu: serde_json::from_value(v[2].clone()).unwrap(),
+            apid: v[3].as_u64().map(|x| x as u8),
+            ctid: v[4].as_u64().map(|x| x as u8),
+        }
+    }
+    /// ground truth: the literal criteria
+    fn verdict(&self, m: &M) -> bool {
+        if !self.ecu.is_empty() && !self.ecu.contains(&m.ecu) {
+            return false;
+        }
+        if let Some(a) = self.apid {
+            if !(m.ext && a != 0 && m.apid == a) {
+                return false;
+            }
+        }
+        if let Some(c) = self.ctid {
+            if !(m.ext && c != 0 && m.ctid == c) {
+                return false;
+            }
+        }
+        true
+    }
+}
+#[derive(Clone, Debug, PartialEq)]
+struct Opts {
+    b: Option<u32>,
+    e: Option<u32>,
+    lcs: Vec<u32>,
+    ffmt: u8, // 0 no -f, 1 dlf, 2 dlt-convert format
+    ffilters: Vec<Flt>,
+    eac: Vec<Flt>,
+    eac_style: u8, // how alternatives are spelled
+    sort: bool,
+    style: u8, // 0 none, 1 -a, 2 -x, 3 -s
+    ofile: bool,
+}
+impl Opts {
+    fn none(style: u8) -> Opts {
+        Opts { b: None, e: None, lcs: vec![], ffmt: 0, ffilters: vec![], eac: vec![], eac_style: 0, sort: false, style, ofile: false }
+    }
+    fn json(&self) -> Value {
+        json!({"b": self.b, "e": self.e, "lcs": self.lcs, "ffmt": self.ffmt,
+               "ffilters": self.ffilters.iter().map(|f| f.json()).collect::<Vec<_>>(),
+               "eac": self.eac.iter().map(|f| f.json()).collect::<Vec<_>>(), "eac_style": self.eac_style,
+               "sort": self.sort, "style": self.style, "ofile": self.ofile})
+    }
+    fn from_json(v: &Value) -> Opts {
+        Opts {
+            b: v["b"].as_u64().map(|x| x as u32),
+            e: v["e"].as_u64().map(|x| x as u32),
+            lcs: serde_json::from_value(v["lcs"].clone()).unwrap(),
+            ffmt: v["ffmt"].as_u64().unwrap() as u8,
+            ffilters: v["ffilters"].as_array().unwrap().iter().map(Flt::from_json).collect(),
+            eac: v["eac"].as_array().unwrap().iter().map(Flt::from_json).collect(),
+            eac_style: v["eac_style"].as_u64().unwrap() as u8,
+            sort: v["sort"].as_bool().unwrap(),
+            style: v["style"].as_u64().unwrap() as u8,
+            ofile: v["ofile"].as_bool().unwrap(),
+        }
+    }
+    /// the filter vector convert builds: file filters, then the --eac filters
+    fn filters(&self) -> Vec<Flt> {
+        let mut v = if self.ffmt != 0 { self.ffilters.clone() } else { vec![] };
+        v.extend(self.eac.iter().cloned());
+        v
+    }
+    fn key(&self) -> String {
+        self.json().to_string()
+    }
+}
+
+fn dlf_text(fs: &[Flt], pretty: bool) -> String {
+    let nl = if pretty { "\n  " } else { "" };
+    let mut s = String::from("<?xml version=\"1.0\" encoding=\"UTF-8\"?>\n<dltfilter>");
+    for f in fs {
+        s.push_str(nl);
+        s.push_str("<filter>");
+        let mut kv: Vec<(String, String)> = vec![("type".into(), f.kind.to_string()), ("enablefilter".into(), (f.enabled as u8).to_string())];
+        if let Some(e) = f.ecu.first() {
+            kv.push(("enableecuid".into(), "1".into()));
+            kv.push(("ecuid".into(), id_str(&ecu_id(*e))));
+        } else {
+            kv.push(("enableecuid".into(), "0".into()));
+            kv.push(("ecuid".into(), "EC01".into()));
+        }
+        if let Some(a) = f.apid {
+            kv.push(("enableapplicationid".into(), "1".into()));
+            kv.push(("applicationid".into(), id_str(&apid_id(a))));
+        }
+        if let Some(c) = f.ctid {
+            kv.push(("enablecontextid".into(), "1".into()));
+            kv.push(("contextid".into(), id_str(&ctid_id(c))));
+        }
+        for (k, v) in kv {
+            s.push_str(nl);
+            s.push_str(&format!("<{}>{}</{}>", k, v, k));
+        }
+        s.push_str(nl);
+        s.push_str("</filter>");
+    }
+    s.push_str(if pretty { "\n</dltfilter>\n" } else { "</dltfilter>" });
+    s
+}
+fn conv_text(fs: &[Flt]) -> Vec<u8> {
+    // "<apid> <ctid> " : 4 bytes each, filled with '-', one separator byte after each
+    let mut out = vec![];
+    for (i, f) in fs.iter().enumerate() {
+        for (id, sep) in [(apid_id(f.apid.unwrap_or(0)), b' '), (ctid_id(f.ctid.unwrap_or(0)), if i % 2 == 0 { b' ' } else { b'\n' })] {
+            for c in id {
+                out.push(if c == 0 { b'-' } else { c });
+            }
+            out.push(sep);
+        }
+    }
+    out
+}
+fn eac_text(fs: &[Flt], style: u8) -> String {
+    let mut parts = vec![];
+    for f in fs {
+        let ecu = match f.ecu.len() {
+            0 => String::new(),
+            1 => id_str(&ecu_id(f.ecu[0])),
+            _ => {
+                if style == 1 && f.ecu.iter().all(|e| *e < 10) {
+                    format!("EC0[{}]", f.ecu.iter().map(|e| e.to_string()).collect::<String>())
+                } else {
+                    f.ecu.iter().map(|e| id_str(&ecu_id(*e))).collect::<Vec<_>>().join("|")
+                }
+            }
+        };
+        let apid = f.apid.map(|a| id_str(&apid_id(a))).unwrap_or_default();
+        let ctid = f.ctid.map(|c| id_str(&ctid_id(c))).unwrap_or_default();
+        let mut s = format!("{}:{}:{}", ecu, apid, ctid);
+        if style != 2 {
+            // trailing empty parts may be left out
+            while s.ends_with(':') && s.len() > 1 {
+                s.pop();
+            }
+        }
+        parts.push(s);
+    }
+    parts.join(",")
+}
+
+// ------------------------------------------------------------------ running the binary
+#[derive(Clone, Debug, Default)]
+struct RunOut {
+    ok: bool, // exit status success
+    timed_out: bool,
+    lines: Vec<String>,
+    stderr: String,
+    ofile: Option<Vec<DltMessage>>,
+}
+
+type ArgSpec = (usize, bool); // (file number, alternative spelling of the path)
+
+fn run_adlt(scn_dir: &Path, inv_dir: &Path, args: &[ArgSpec], o: &Opts) -> RunOut {
+    let bin = std::env::var("VERIF_ADLT_BIN").expect("VERIF_ADLT_BIN");
+    std::fs::create_dir_all(inv_dir).unwrap();
+    let mut cmd = Command::new(bin);
+    cmd.arg("convert");
+    for (k, alt) in args {
+        let p = if *alt { scn_dir.join(".").join("..").join(scn_dir.file_name().unwrap()).join(format!("f{}.dlt", k)) } else { scn_dir.join(format!("f{}.dlt", k)) };
+        cmd.arg(p);
+    }
+    match o.style {
+        1 => {
+            cmd.arg("-a");
+        }
+        2 => {
+            cmd.arg("-x");
+        }
+        3 => {
+            cmd.arg("-s");
+        }
+        _ => {}
+    }
+    if let Some(b) = o.b {
+        cmd.arg("-b").arg(b.to_string());
+    }
+    if let Some(e) = o.e {
+        cmd.arg("-e").arg(e.to_string());
+    }
+    if !o.lcs.is_empty() {
+        cmd.arg(format!("--lcs={}", o.lcs.iter().map(|x| x.to_string()).collect::<Vec<_>>().join(",")));
+    }
+    if o.ffmt != 0 {
+        let fp = inv_dir.join(if o.ffmt == 1 { "filter.dlf" } else { "filter.txt" });
+        if o.ffmt == 1 {
+            std::fs::write(&fp, dlf_text(&o.ffilters, o.eac_style % 2 == 0)).unwrap();
+        } else {
+            std::fs::write(&fp, conv_text(&o.ffilters)).unwrap();
+        }
+        cmd.arg("-f").arg(fp);
+    }
+    if !o.eac.is_empty() {
+        cmd.arg(format!("--eac={}", eac_text(&o.eac, o.eac_style)));
+    }
+    if o.sort {
+        cmd.arg("--sort");
+    }
+    let opath = inv_dir.join("out.dlt");
+    if o.ofile {
+        cmd.arg("-o").arg(&opath);
+    }
+    let so = inv_dir.join("stdout.txt");
+    let se = inv_dir.join("stderr.txt");
+    let mut child = cmd
+        .env("RUST_BACKTRACE", "0")
+        .stdin(Stdio::null())
+        .stdout(std::fs::File::create(&so).unwrap())
+        .stderr(std::fs::File::create(&se).unwrap())
+        .spawn()
+        .expect("spawn adlt");
+    let t0 = Instant::now();
+    let mut r = RunOut::default();
+    loop {
+        match child.try_wait().unwrap() {
+            Some(st) => {
+                r.ok = st.success();
+                break;
+            }
+            None => {
+                if t0.elapsed() > Duration::from_secs(120) {
+                    let _ = child.kill();
+                    let _ = child.wait();
+                    r.timed_out = true;
+                    break;
+                }
+                std::thread::sleep(Duration::from_millis(3));
+            }
+        }
+    }
+    r.lines = String::from_utf8_lossy(&std::fs::read(&so).unwrap_or_default()).lines().map(|s| s.to_string()).collect();
+    r.stderr = String::from_utf8_lossy(&std::fs::read(&se).unwrap_or_default()).to_string();
+    if opath.exists() {
+        let data = std::fs::read(&opath).unwrap();
+        let mut cur = std::io::Cursor::new(&data[..]);
+        let it = DltMessageIterator::new(0, &mut cur);
+        r.ofile = Some(it.collect());
+    }
+    let _ = std::fs::remove_dir_all(inv_dir);
+    r
+}
+
+// ------------------------------------------------------------------ parsing the output
+struct Parsed {
+    screen: Vec<(u32, u32)>,          // (index, uid)
+    listing: Option<Vec<(u32, u8, u32)>>, // (id, ecu, nr)
+    file: Option<Vec<u32>>,
+    problems: Vec<String>,
+}
+fn same_msg(a: &DltMessage, b: &DltMessage) -> bool {
+    a.ecu == b.ecu
+        && a.reception_time_us == b.reception_time_us
+        && a.timestamp_dms == b.timestamp_dms
+        && a.standard_header.htyp == b.standard_header.htyp
+        && a.standard_header.mcnt == b.standard_header.mcnt
+        && a.extended_header == b.extended_header
+        && a.payload == b.payload
+}
+fn parse_out(scn: &Scn, r: &RunOut, style: u8) -> Parsed {
+    let mut key: HashMap<(u8, u32, u8), u32> = HashMap::new();
+    for (uid, m) in scn.msgs.iter().enumerate() {
+        key.insert((m.ecu, m.ts, m.mcnt), uid as u32);
+    }
+    let mut p = Parsed { screen: vec![], listing: None, file: None, problems: vec![] };
+    if style != 0 {
+        for l in &r.lines {
+            let t: Vec<&str> = l.split_whitespace().collect();
+            let parsed = (|| {
+                if t.len() < 8 {
+                    return None;
+                }
+                let idx: u32 = t[0].parse().ok()?;
+                let ts: u32 = t[3].parse().ok()?;
+                let mcnt: u8 = t[4].parse().ok()?;
+                let e = t[5].as_bytes();
+                if e.len() != 4 || &e[0..2] != b"EC" {
+                    return None;
+                }
+                let ecu = (e[2] - b'0') * 10 + (e[3] - b'0');
+                let uid = *key.get(&(ecu, ts, mcnt))?;
+                Some((idx, uid))
+            })();
+            match parsed {
+                Some(x) => p.screen.push(x),
+                None => p.problems.push(format!("unexpected stdout line: {:.100}", l)),
+            }
+        }
+    } else {
+        let mut rows = vec![];
+        let mut announced = None;
+        for l in &r.lines {
+            if let Some(rest) = l.strip_prefix("have ") {
+                announced = rest.split_whitespace().next().and_then(|x| x.parse::<usize>().ok());
+            } else if let Some(rest) = l.strip_prefix("LC#") {
+                let parsed = (|| {
+                    let (id, right) = rest.split_once(':')?;
+                    let id: u32 = id.trim().parse().ok()?;
+                    let e = right.split_whitespace().next()?.as_bytes();
+                    if e.len() != 4 {
+                        return None;
+                    }
+                    let ecu = (e[2].wrapping_sub(b'0')) * 10 + (e[3].wrapping_sub(b'0'));
+                    let nr: u32 = right[right.rfind('#')? + 1..].split_whitespace().next()?.parse().ok()?;
+                    Some((id, ecu, nr))
+                })();
+                match parsed {
+                    Some(x) => rows.push(x),
+                    None => p.problems.push(format!("unexpected listing line: {:.100}", l)),
+                }
+            } else {
+                p.problems.push(format!("unexpected stdout line: {:.100}", l));
+            }
+        }
+        if r.ok {
+            if announced != Some(rows.len()) {
+                p.problems.push(format!("listing announces {:?} lifecycles, prints {}", announced, rows.len()));
+            }
+            rows.sort();
+            p.listing = Some(rows);
+        }
+    }
+    if let Some(ms) = &r.ofile {
+        let mut uids = vec![];
+        for m in ms {
+            let uid = if m.payload.len() >= 4 { u32::from_le_bytes([m.payload[0], m.payload[1], m.payload[2], m.payload[3]]) } else { u32::MAX };
+            if (uid as usize) < scn.msgs.len() && same_msg(m, &scn.msgs[uid as usize].build(uid)) {
+                uids.push(uid);
+            } else {
+                p.problems.push(format!("-o file: message {} is not a message of the input", m.index));
+                uids.push(u32::MAX);
+            }
+        }
+        p.file = Some(uids);
+    }
+    p
+}
+
+// ------------------------------------------------------------------ jobs (process runs), executed in parallel
+#[derive(Clone, Debug)]
+struct Job {
+    scn: usize,
+    args: Vec<ArgSpec>,
+    opts: Opts,
+}
+fn job_key(scn: usize, args: &[ArgSpec], o: &Opts) -> String {
+    format!("{}|{:?}|{}", scn, args, o.key())
+}
+struct World {
+    root: PathBuf,
+    scns: Vec<Scn>,
+    results: HashMap<String, RunOut>,
+    invocations: u64,
+}
+impl World {
+    fn run_jobs(&mut self, jobs: Vec<Job>, par: usize) {
+        let mut todo: Vec<(String, Job)> = vec![];
+        let mut seen = BTreeSet::new();
+        for j in jobs {
+            let k = job_key(j.scn, &j.args, &j.opts);
+            if !self.results.contains_key(&k) && seen.insert(k.clone()) {
+                todo.push((k, j));
+            }
+        }
+        let base = self.invocations;
+        self.invocations += todo.len() as u64;
+        let todo = Arc::new(todo);
+        let next = Arc::new(Mutex::new(0usize));
+        let out: Arc<Mutex<Vec<(String, RunOut)>>> = Arc::new(Mutex::new(vec![]));
+        let mut hs = vec![];
+        for _ in 0..par.max(1) {
+            let (todo, next, out, root) = (todo.clone(), next.clone(), out.clone(), self.root.clone());
+            hs.push(std::thread::spawn(move || loop {
+                let i = {
+                    let mut n = next.lock().unwrap();
+                    let i = *n;
+                    *n += 1;
+                    i
+                };
+                if i >= todo.len() {
+                    break;
+                }
+                let (k, j) = &todo[i];
+                let r = run_adlt(&root.join(format!("s{}", j.scn)), &root.join(format!("i{}", base as usize + i)), &j.args, &j.opts);
+                out.lock().unwrap().push((k.clone(), r));
+            }));
+        }
+        for h in hs {
+            h.join().unwrap();
+        }
+        for (k, r) in out.lock().unwrap().drain(..) {
+            self.results.insert(k, r);
+        }
+    }
+    fn get(&self, scn: usize, args: &[ArgSpec], o: &Opts) -> &RunOut {
+        &self.results[&job_key(scn, args, o)]
+    }
+}
+
+fn canon_args(args: &[ArgSpec]) -> Vec<ArgSpec> {
+    let mut v: Vec<ArgSpec> = args.iter().map(|a| (a.0, false)).collect();
+    v.sort();
+    v
+}
+/// the process runs one invocation's case needs: itself, the baseline for the same arguments, the baseline for the
+/// canonical order of the same arguments
+fn jobs_for(scn: usize, args: &[ArgSpec], o: &Opts) -> Vec<Job> {
+    vec![
+        Job { scn, args: args.to_vec(), opts: o.clone() },
+        Job { scn, args: args.to_vec(), opts: Opts::none(3) },
+        Job { scn, args: canon_args(args), opts: Opts::none(3) },
+    ]
+}
+
+// ------------------------------------------------------------------ oracle + case
+fn fail(c: &str, d: String) -> Verdict {
+    Verdict::Fail { clause: c.into(), detail: d }
+}
+
+struct Truth {
+    /// expected lifecycle id per uid (rank of first appearance of (ecu, boot) in the baseline), None if the trace is
+    /// not clean in baseline order
+    lc_of: Option<HashMap<u32, u32>>,
+    /// (id, ecu, nr) rows expected in the listing
+    rows: Vec<(u32, u8, u32)>,
+}
+fn truth(scn: &Scn, baseline: &[(u32, u32)]) -> Truth {
+    let mut ids: BTreeMap<(u8, u32), u32> = BTreeMap::new();
+    let mut maxboot: HashMap<u8, u32> = HashMap::new();
+    let mut clean = true;
+    let mut lc_of = HashMap::new();
+    let mut rows: Vec<(u32, u8, u32)> = vec![];
+    for (_, uid) in baseline {
+        let m = &scn.msgs[*uid as usize];
+        let mb = maxboot.entry(m.ecu).or_insert(m.boot);
+        if m.boot < *mb {
+            clean = false;
+        }
+        *mb = (*mb).max(m.boot);
+        let n = ids.len() as u32 + 1;
+        let id = *ids.entry((m.ecu, m.boot)).or_insert(n);
+        if id == n && rows.len() < n as usize {
+            rows.push((id, m.ecu, 0));
+        }
+        rows[id as usize - 1].2 += 1;
+        lc_of.insert(*uid, id);
+    }
+    // a message that occurs twice (a file taken twice) has no unique ground truth either
+    let distinct: BTreeSet<u32> = baseline.iter().map(|x| x.1).collect();
+    if distinct.len() != baseline.len() {
+        clean = false;
+    }
+    Truth { lc_of: if clean { Some(lc_of) } else { None }, rows }
+}
+
+fn keep_truth(fs: &[Flt], m: &M) -> bool {
+    let pos: Vec<&Flt> = fs.iter().filter(|f| f.enabled && f.kind == 0).collect();
+    let neg: Vec<&Flt> = fs.iter().filter(|f| f.enabled && f.kind == 1).collect();
+    (pos.is_empty() || pos.iter().any(|f| f.verdict(m))) && !neg.iter().any(|f| f.verdict(m))
+}
+
+fn distinct_first_times(scn: &Scn, args: &[ArgSpec]) -> bool {
+    let files: BTreeSet<usize> = args.iter().map(|a| a.0).collect();
+    let mut ts: Vec<u64> = files.iter().filter_map(|k| scn.first_rt(*k)).collect();
+    let n = ts.len();
+    ts.sort();
+    ts.dedup();
+    ts.len() == n
+}
+
+fn record(sink: &mut Sink, w: &World, scn_no: usize, args: &[ArgSpec], o: &Opts, extra_tags: &[&str]) {
+    let scn = &w.scns[scn_no];
+    let r = w.get(scn_no, args, o);
+    let rb = w.get(scn_no, args, &Opts::none(3));
+    let rc = w.get(scn_no, &canon_args(args), &Opts::none(3));
+    let p = parse_out(scn, r, o.style);
+    let pb = parse_out(scn, rb, 3);
+    let pc = parse_out(scn, rc, 3);
+    let filters = o.filters();
+    let t = truth(scn, &pb.screen);
+    let dft = distinct_first_times(scn, args);
+    let files_named: BTreeSet<usize> = args.iter().map(|a| a.0).collect();
+    let any_ok = files_named.iter().any(|k| !scn.files[*k].missing);
+
+    // ---------------- oracle
+    let verdict = (|| {
+        for (what, x) in [("run", r), ("baseline", rb), ("baseline-canonical", rc)] {
+            if x.timed_out {
+                return fail("terminates", format!("{} timed out", what));
+            }
+            if x.stderr.contains("panicked") {
+                return fail("no_panic", format!("{}: {:.300}", what, x.stderr));
+            }
+        }
+        if !any_ok {
+            // no file can be opened: an error, nothing emitted
+            if r.ok || !p.screen.is_empty() || p.file.as_ref().map_or(false, |f| !f.is_empty()) {
+                return fail("no_input", "no input file can be opened but the run succeeded or emitted messages".into());
+            }
+            return Verdict::Ok;
+        }
+        if !r.ok || !rb.ok || !rc.ok {
+            return fail("exit_status", format!("exit status not ok: {:.300}", r.stderr));
+        }
+        for (what, x) in [("run", &p), ("baseline", &pb), ("baseline-canonical", &pc)] {
+            if let Some(pr) = x.problems.first() {
+                return fail("output_format", format!("{}: {}", what, pr));
+            }
+        }
+        // baseline: numbered 0.., every message of every named file once (when first times are distinct), file order kept
+        for (k, (idx, _)) in pb.screen.iter().enumerate() {
+            if *idx as usize != k {
+                return fail("indices_consecutive", format!("baseline line {} has index {}", k, idx));
+            }
+        }
+        for k in &files_named {
+            if scn.files[*k].missing || scn.file_bytes(*k).1 == 0 {
+                continue;
+            }
+            let want = &scn.files[*k].msgs;
+            let inset: BTreeSet<u32> = want.iter().cloned().collect();
+            let got: Vec<u32> = pb.screen.iter().map(|x| x.1).filter(|u| inset.contains(u)).collect();
+            if dft {
+                if &got != want {
+                    return fail("every_message_once_in_file_order", format!("file {}: expected {:?} got {:?}", k, want, got));
+                }
+            } else {
+                // a file may legitimately be read twice when first reception times tie (not de-duplicated): each copy in order
+                let times = got.len() / want.len().max(1);
+                let mut ok = got.len() == times * want.len() && times >= 1;
+                if ok {
+                    for c in 0..times {
+                        // the c-th occurrence of every uid forms the file's sequence
+                        let mut seen: HashMap<u32, usize> = HashMap::new();
+                        let sub: Vec<u32> = got
+                            .iter()
+                            .cloned()
+                            .filter(|u| {
+                                let e = seen.entry(*u).or_insert(0);
+                                *e += 1;
+                                *e == c + 1
+                            })
+                            .collect();
+                        ok &= &sub == want;
+                    }
+                }
+                if !ok {
+                    return fail("every_message_in_file_order", format!("file {}: expected copies of {:?} got {:?}", k, want, got));
+                }
+            }
+        }
+        let known: BTreeSet<u32> =
+            files_named.iter().filter(|k| !scn.files[**k].missing && scn.file_bytes(**k).1 > 0).flat_map(|k| scn.files[*k].msgs.iter().cloned()).collect();
+        if pb.screen.iter().any(|x| !known.contains(&x.1)) {
+            return fail("only_input_messages", "baseline contains a message of no named file".into());
+        }
+        // file order irrelevant
+        if dft && pb.screen != pc.screen {
+            return fail("file_order_irrelevant", format!("arguments {:?}: {:?} but in canonical order: {:?}", args, pb.screen, pc.screen));
+        }
+        // lifecycle ground truth vs listing
+        if let (Some(rows), Some(_)) = (&p.listing, &t.lc_of) {
+            if rows != &t.rows {
+                return fail("lifecycle_listing", format!("listing {:?}, ground truth {:?}", rows, t.rows));
+            }
+        }
+        // selection
+        if !o.lcs.is_empty() && t.lc_of.is_none() {
+            return Verdict::Ok; // no ground truth for the lifecycles: correspondence only
+        }
+        let want: Vec<(u32, u32)> = pb
+            .screen
+            .iter()
+            .filter(|(idx, uid)| {
+                let m = &scn.msgs[*uid as usize];
+                o.b.map_or(true, |b| *idx >= b)
+                    && o.e.map_or(true, |e| *idx <= e)
+                    && (o.lcs.is_empty() || o.lcs.contains(&t.lc_of.as_ref().unwrap()[uid]))
+                    && keep_truth(&filters, m)
+            })
+            .cloned()
+            .collect();
+        if o.style != 0 {
+            let mut got = p.screen.clone();
+            if o.sort {
+                got.sort();
+            }
+            if got != want {
+                return fail("screen_selected_exactly", format!("expected {:?} got {:?}", want, p.screen));
+            }
+        }
+        match (&p.file, o.ofile) {
+            (None, false) => {}
+            (Some(got), true) => {
+                let mut w: Vec<u32> = want.iter().map(|x| x.1).collect();
+                let mut g = got.clone();
+                if o.sort {
+                    // position in the baseline identifies the message
+                    let pos: HashMap<u32, usize> = pb.screen.iter().enumerate().map(|(i, x)| (x.1, i)).collect();
+                    g.sort_by_key(|u| pos.get(u).cloned().unwrap_or(usize::MAX));
+                    w.sort_by_key(|u| pos.get(u).cloned().unwrap_or(usize::MAX));
+                }
+                if g != w {
+                    return fail("file_selected_exactly", format!("expected {:?} got {:?}", w, got));
+                }
+            }
+            (None, true) => return fail("file_written", "-o given but no file written".into()),
+            (Some(_), false) => return fail("file_written", "file written without -o".into()),
+        }
+        Verdict::Ok
+    })();
+
+    // ---------------- observation
+    let status = if r.ok { 0u32 } else { 1 };
+    let obs = O::T(vec![
+        O::n(status),
+        O::T(pb.screen.iter().map(|x| O::n(x.1)).collect()),
+        O::T(p.screen.iter().map(|x| O::T(vec![O::n(x.0), O::n(x.1)])).collect()),
+        match &p.file {
+            None => O::T(vec![]),
+            Some(f) => O::T(vec![O::T(f.iter().map(|u| O::n(*u)).collect())]),
+        },
+        match &p.listing {
+            None => O::T(vec![]),
+            Some(rows) => O::T(vec![O::T(rows.iter().map(|x| O::T(vec![O::n(x.0), O::n(x.1), O::n(x.2)])).collect())]),
+        },
+    ]);
+
+    // ---------------- Coq input
+    let coq_files: Vec<String> = (0..scn.files.len())
+        .map(|k| {
+            let f = &scn.files[k];
+            let msgs: Vec<String> = f
+                .msgs
+                .iter()
+                .map(|uid| {
+                    let m = &scn.msgs[*uid as usize];
+                    let fv: Vec<&str> = filters.iter().map(|f| cbool(f.verdict(m))).collect();
+                    format!("({}, {}, {}, {}, {})", uid, m.ecu, m.rt, m.ts as u64 * 100, clist(&fv))
+                })
+                .collect();
+            format!("({}, {}, {})", k, if f.missing { 0 } else { scn.file_bytes(k).1 }, clist(&msgs))
+        })
+        .collect();
+    let coq_args: Vec<String> = args.iter().map(|a| if scn.files[a.0].missing { "None".to_string() } else { format!("(Some {})", a.0) }).collect();
+    let coq_filters: Vec<String> = filters.iter().map(|f| format!("({}, {})", f.kind, cbool(f.enabled))).collect();
+    let coq_opts = format!(
+        "({}, {}, {}, {}, {}, {}, {})",
+        o.b.unwrap_or(0),
+        o.e.unwrap_or(u32::MAX),
+        cnums(&o.lcs),
+        clist(&coq_filters),
+        cbool(o.sort),
+        o.style,
+        cbool(o.ofile)
+    );
+    let input_coq = format!("({}, {}, {})", clist(&coq_files), clist(&coq_args), coq_opts);
+
+    // ---------------- tags
+    let mut tags: Vec<String> = extra_tags.iter().map(|s| s.to_string()).collect();
+    tags.push(format!("files{}", files_named.len().min(6)));
+    tags.push(format!("style{}", o.style));
+    if o.b.is_some() {
+        tags.push("opt_b".into());
+    }
+    if o.e.is_some() {
+        tags.push("opt_e".into());
+    }
+    if !o.lcs.is_empty() {
+        tags.push("opt_lcs".into());
+    }
+    if o.ffmt == 1 {
+        tags.push("opt_f_dlf".into());
+    }
+    if o.ffmt == 2 {
+        tags.push("opt_f_conv".into());
+    }
+    if !o.eac.is_empty() {
+        tags.push(format!("opt_eac{}", o.eac.len().min(3)));
+    }
+    if o.sort {
+        tags.push("opt_sort".into());
+    }
+    if o.ofile {
+        tags.push("opt_o".into());
+    }
+    if !dft {
+        tags.push("first_times_tie".into());
+    }
+    if t.lc_of.is_none() {
+        tags.push("lifecycles_not_clean".into());
+    }
+    if args.len() != files_named.len() {
+        tags.push("file_named_twice".into());
+    }
+    if args.iter().any(|a| scn.files[a.0].missing) {
+        tags.push("missing_file".into());
+    }
+    if args != &canon_args(args)[..] {
+        tags.push("permuted_args".into());
+    }
+    {
+        // reception-time ties between messages of different files
+        let mut seen: HashMap<u64, usize> = HashMap::new();
+        let mut tie = false;
+        for k in &files_named {
+            for u in &scn.files[*k].msgs {
+                let rt = scn.msgs[*u as usize].rt;
+                if let Some(k0) = seen.get(&rt) {
+                    if k0 != k {
+                        tie = true;
+                    }
+                }
+                seen.insert(rt, *k);
+            }
+        }
+        if tie {
+            tags.push("cross_file_time_tie".into());
+        }
+    }
+    let selected = p.screen.len().max(p.file.as_ref().map_or(0, |f| f.len()));
+    let has_selection = o.b.is_some() || o.e.is_some() || !o.lcs.is_empty() || !filters.is_empty();
+    let nontrivial = pb.screen.len() >= 3 && (!has_selection || (selected > 0 && selected < pb.screen.len()));
+    let input_json = json!({"scn": scn.json(), "args": args.iter().map(|a| json!([a.0, a.1])).collect::<Vec<_>>(), "opts": o.json()});
+    let id = sink.next_id();
+    sink.push(Case { id, key: input_coq.clone(), input_coq, input_json, obs, verdict, classes: vec![], tags, nontrivial });
+}
+
+// ------------------------------------------------------------------ generators
+fn gen_garbage(rng: &mut Rng, max: u64) -> Vec<u8> {
+    loop {
+        let n = rng.size(max);
+        let g: Vec<u8> = (0..n).map(|_| *rng.pick(&[b'D', b'L', b'T', b'S', 1u8, 0, 0x20, 0xff, 0x35, b'E'])).collect();
+        let mut probe = g.clone();
+        probe.extend_from_slice(b"DLT");
+        let bad = probe.windows(4).any(|w| w == b"DLT\x01" || w == b"DLS\x01");
+        if !bad {
+            return g;
+        }
+    }
+}
+
+/// clean-boot trace over `necu` ECUs; `grid`: quantisation of all times (coarse grids give many reception-time ties)
+fn gen_msgs(rng: &mut Rng, necu: u64, max_per_boot: u64, grid: u64) -> Vec<M> {
+    let mut all: Vec<M> = vec![];
+    for e in 1..=necu {
+        let nb = rng.range(1, 3);
+        let mut t = RHO + rng.below(4) * grid;
+        for b in 0..nb {
+            let n = rng.range(1, max_per_boot);
+            let delay = if rng.chance(1, 2) { 0 } else { rng.below(3) * 100 };
+            let mut ts_us: u64 = if rng.chance(1, 2) { 0 } else { rng.below(3) * grid };
+            let mut maxts = 0;
+            for k in 0..n {
+                if k > 0 {
+                    ts_us += match rng.below(6) {
+                        0 => 0,
+                        1 => 12_000_000 / grid * grid + grid, // a gap > 10 s
+                        _ => rng.range(1, 3) * grid,
+                    };
+                }
+                maxts = maxts.max(ts_us);
+                let ext = rng.chance(3, 4);
+                all.push(M {
+                    ecu: e as u8,
+                    rt: t + delay + ts_us,
+                    ts: (ts_us / 100) as u32,
+                    mcnt: 0,
+                    ext,
+                    apid: if ext { rng.range(1, 3) as u8 } else { 0 },
+                    ctid: if ext { rng.range(1, 3) as u8 } else { 0 },
+                    boot: b as u32,
+                    fill: 0,
+                });
+            }
+            // next boot: at least 1 ms after the last message was generated
+            t = t + maxts + delay
+                + match rng.below(3) {
+                    0 => grid.max(1_000),
+                    1 => 2 * grid.max(1_000),
+                    _ => rng.range(1, 30) * grid.max(1_000_000),
+                };
+        }
+    }
+    // global order: by reception time, ties in random order
+    let mut keyed: Vec<(u64, u64, M)> = all.into_iter().map(|m| (m.rt, rng.next(), m)).collect();
+    keyed.sort_by_key(|x| (x.0, x.1));
+    let mut out: Vec<M> = keyed.into_iter().map(|x| x.2).collect();
+    // unique (ecu, ts, mcnt)
+    let mut used: BTreeSet<(u8, u32, u8)> = BTreeSet::new();
+    for (i, m) in out.iter_mut().enumerate() {
+        let mut c = (i % 256) as u8;
+        while used.contains(&(m.ecu, m.ts, c)) {
+            c = c.wrapping_add(1);
+        }
+        m.mcnt = c;
+        used.insert((m.ecu, m.ts, c));
+    }
+    out
+}
+
+fn gen_scn(rng: &mut Rng, big: bool) -> Scn {
+    let necu = rng.range(1, 4);
+    let grid = *rng.pick(&[100u64, 1_000, 100_000, 1_000_000, 1_000_000]);
+    let msgs = gen_msgs(rng, necu, if big { 9 } else { 5 }, grid);
+    let nfiles = rng.range(1, 5) as usize;
+    // each file: an ECU subset and a phase (time slice) it accepts
+    let nphase = rng.range(1, 3);
+    let t0 = msgs.first().map_or(0, |m| m.rt);
+    let t1 = msgs.last().map_or(0, |m| m.rt) + 1;
+    let mut sets: Vec<(BTreeSet<u8>, u64)> = vec![];
+    for _ in 0..nfiles {
+        let mut s = BTreeSet::new();
+        if rng.chance(1, 2) {
+            s.insert(rng.range(1, necu) as u8);
+        } else {
+            for e in 1..=necu {
+                if rng.chance(1, 2) {
+                    s.insert(e as u8);
+                }
+            }
+            if s.is_empty() {
+                s.insert(rng.range(1, necu) as u8);
+            }
+        }
+        sets.push((s, rng.below(nphase)));
+    }
+    let strict_phase = rng.chance(2, 3);
+    let mut files: Vec<Vec<u32>> = vec![vec![]; nfiles];
+    for (uid, m) in msgs.iter().enumerate() {
+        let phase = ((m.rt - t0) * nphase / (t1 - t0).max(1)).min(nphase - 1);
+        let mut cand: Vec<usize> = (0..nfiles).filter(|k| sets[*k].0.contains(&m.ecu) && (!strict_phase || sets[*k].1 == phase)).collect();
+        if cand.is_empty() {
+            cand = (0..nfiles).filter(|k| sets[*k].0.contains(&m.ecu)).collect();
+        }
+        if cand.is_empty() {
+            cand = vec![rng.below(nfiles as u64) as usize];
+        }
+        files[*rng.pick(&cand)].push(uid as u32);
+    }
+    let mut fs: Vec<FileSpec> = files
+        .into_iter()
+        .map(|msgs| {
+            let with_garbage = rng.chance(1, 2);
+            let garbage = (0..=msgs.len()).map(|_| if with_garbage && rng.chance(1, 3) { gen_garbage(rng, 12) } else { vec![] }).collect();
+            FileSpec { msgs, garbage, missing: false }
+        })
+        .collect();
+    // odd files: missing, empty, garbage only
+    if rng.chance(1, 5) {
+        fs.push(FileSpec { msgs: vec![], garbage: vec![vec![]], missing: true });
+    }
+    if rng.chance(1, 6) {
+        fs.push(FileSpec { msgs: vec![], garbage: vec![if rng.chance(1, 2) { vec![] } else { gen_garbage(rng, 40) }], missing: false });
+    }
+    Scn { msgs, files: fs }
+}
+
+fn gen_flt(rng: &mut Rng, necu: u64, kind: u8) -> Flt {
+    let mut f = Flt { kind, enabled: true, ecu: vec![], apid: None, ctid: None };
+    match rng.below(6) {
+        0 => f.ecu = vec![rng.range(1, necu) as u8],
+        1 => f.apid = Some(rng.range(1, 3) as u8),
+        2 => f.ctid = Some(rng.range(1, 3) as u8),
+        3 => {
+            f.apid = Some(rng.range(1, 3) as u8);
+            f.ctid = Some(rng.range(1, 3) as u8);
+        }
+        4 => {
+            f.ecu = vec![rng.range(1, necu) as u8];
+            f.apid = Some(rng.range(1, 3) as u8);
+        }
+        _ => {
+            let a = rng.range(1, necu.max(2)) as u8;
+            let b = rng.range(1, necu.max(2)) as u8;
+            f.ecu = if a == b { vec![a] } else { vec![a, b] };
+            if rng.chance(1, 3) {
+                f.ctid = Some(rng.range(1, 3) as u8);
+            }
+        }
+    }
+    f
+}
+
+fn gen_opts(rng: &mut Rng, scn: &Scn, n: usize, nlc: u32, lcs_ok: bool) -> Opts {
+    let necu = scn.msgs.iter().map(|m| m.ecu).max().unwrap_or(1) as u64;
+    let mut o = Opts::none(0);
+    let n = n as u64;
+    if rng.chance(1, 2) {
+        o.b = Some(match rng.below(6) {
+            0 => 0,
+            1 => n as u32,
+            2 => (n + 3) as u32,
+            _ => rng.below(n + 1) as u32,
+        });
+    }
+    if rng.chance(1, 2) {
+        o.e = Some(match rng.below(6) {
+            0 => 0,
+            1 => n.saturating_sub(1) as u32,
+            2 => u32::MAX,
+            _ => rng.below(n + 1) as u32,
+        });
+    }
+    if lcs_ok && rng.chance(2, 5) {
+        let k = rng.range(1, 3);
+        let mut v: Vec<u32> = vec![];
+        for _ in 0..k {
+            v.push(if rng.chance(1, 8) { nlc + 1 + rng.below(3) as u32 } else { rng.range(1, nlc.max(1) as u64) as u32 });
+        }
+        o.lcs = v;
+    }
+    match rng.below(5) {
+        0 => {
+            o.ffmt = 1;
+            let k = rng.range(0, 3);
+            for _ in 0..k {
+                let kind = match rng.below(6) {
+                    0 | 1 => 1,
+                    2 => 2,
+                    _ => 0,
+                };
+                let mut f = gen_flt(rng, necu, kind);
+                f.ecu.truncate(1); // DLF: a literal ECU id only
+                f.enabled = !rng.chance(1, 5);
+                o.ffilters.push(f);
+            }
+        }
+        1 => {
+            o.ffmt = 2;
+            let k = rng.range(0, 3);
+            for _ in 0..k {
+                o.ffilters.push(Flt { kind: 0, enabled: true, ecu: vec![], apid: Some(rng.below(4) as u8), ctid: Some(rng.below(4) as u8) });
+            }
+        }
+        _ => {}
+    }
+    if rng.chance(2, 5) {
+        let k = rng.range(1, 3);
+        for _ in 0..k {
+            o.eac.push(gen_flt(rng, necu, 0));
+        }
+        o.eac_style = rng.below(3) as u8;
+    } else {
+        o.eac_style = rng.below(2) as u8;
+    }
+    o.sort = rng.chance(1, 4);
+    o.style = rng.below(4) as u8;
+    o.ofile = rng.chance(1, 2) || o.style == 0;
+    o
+}
+
+fn shuffle<T>(rng: &mut Rng, v: &mut Vec<T>) {
+    for i in (1..v.len()).rev() {
+        let j = rng.below(i as u64 + 1) as usize;
+        v.swap(i, j);
+    }
+}
+
+// ------------------------------------------------------------------ corpus
+/// four single-ECU files, first messages at distinct times, two later messages tie: the heap merge pops them in an
+/// order that depends on the order in which the streams were pushed (the order of the file arguments before the fix)
+fn corpus_tie() -> Scn {
+    let mk = |ecu: u8, rt: u64, ts: u32, mcnt: u8| M { ecu, rt, ts, mcnt, ext: false, apid: 0, ctid: 0, boot: 0, fill: 0 };
+    let msgs = vec![
+        mk(1, RHO + 100, 0, 0),
+        mk(1, RHO + 300, 2, 1), // the tie: both second messages are received at the same time
+        mk(2, RHO + 200, 0, 2),
+        mk(2, RHO + 300, 1, 3),
+        mk(3, RHO + 250, 0, 4),
+        mk(4, RHO + 260, 0, 5),
+    ];
+    let f = |v: Vec<u32>| FileSpec { garbage: vec![vec![]; v.len() + 1], msgs: v, missing: false };
+    let s = Scn { msgs, files: vec![f(vec![0, 1]), f(vec![2, 3]), f(vec![4]), f(vec![5])] };
+    s
+}
+
+fn perms4() -> Vec<Vec<usize>> {
+    let mut out = vec![];
+    for a in 0..4 {
+        for b in 0..4 {
+            for c in 0..4 {
+                for d in 0..4 {
+                    let v = vec![a, b, c, d];
+                    let s: BTreeSet<usize> = v.iter().cloned().collect();
+                    if s.len() == 4 {
+                        out.push(v);
+                    }
+                }
+            }
+        }
+    }
+    out
+}
+
+struct Plan {
+    scn: usize,
+    args: Vec<ArgSpec>,
+    opts: Opts,
+    tags: Vec<&'static str>,
+}
+
+fn main() {
+    let a = parse_args();
+    let mut sink = Sink::new("C14", &a.out);
+    let root = tempfile::Builder::new().prefix("c14_").tempdir().unwrap();
+    let mut w = World { root: root.path().to_path_buf(), scns: vec![], results: HashMap::new(), invocations: 0 };
+    let par = std::thread::available_parallelism().map(|n| n.get()).unwrap_or(4).min(8);
+
+    if let Some(p) = &a.replay {
+        let v = read_replay(p);
+        let c = &v["case"];
+        let scn = Scn::from_json(&c["scn"]);
+        scn.write_files(&w.root.join("s0"));
+        w.scns.push(scn);
+        let args: Vec<ArgSpec> = c["args"].as_array().unwrap().iter().map(|x| (x[0].as_u64().unwrap() as usize, x[1].as_bool().unwrap())).collect();
+        let o = Opts::from_json(&c["opts"]);
+        w.run_jobs(jobs_for(0, &args, &o), par);
+        record(&mut sink, &w, 0, &args, &o, &["replay"]);
+        sink.finish();
+        return;
+    }
+
+    let mut plans: Vec<Plan> = vec![];
+    // ---- corpus: the tie witness under several argument orders
+    {
+        let scn = corpus_tie();
+        scn.write_files(&w.root.join("s0"));
+        w.scns.push(scn);
+        for (i, p) in perms4().into_iter().enumerate() {
+            if a.tier == "quick" && i % 4 != 1 && i != 0 {
+                continue;
+            }
+            plans.push(Plan { scn: 0, args: p.iter().map(|k| (*k, false)).collect(), opts: Opts::none(3), tags: vec!["corpus_tie"] });
+        }
+    }
+    let nscn = a.count.unwrap_or(match a.tier.as_str() {
+        "quick" => 14,
+        "thorough" => 170,
+        _ => 400,
+    });
+    let mut rng = Rng::new(a.seed);
+    // phase 1: scenarios and their baselines
+    let first_gen = w.scns.len();
+    let mut arg_sets: Vec<Vec<Vec<ArgSpec>>> = vec![vec![]; first_gen];
+    for _ in 0..nscn {
+        let big = rng.chance(1, 4);
+        let scn = gen_scn(&mut rng, big);
+        let no = w.scns.len();
+        scn.write_files(&w.root.join(format!("s{}", no)));
+        let nf = scn.files.len();
+        // argument lists: all files in order; a permutation; sometimes a sub-list / a file named twice / other spelling
+        let base: Vec<ArgSpec> = (0..nf).map(|k| (k, false)).collect();
+        let mut lists = vec![base.clone()];
+        let mut p = base.clone();
+        shuffle(&mut rng, &mut p);
+        if rng.chance(1, 3) && nf >= 1 {
+            let k = rng.below(nf as u64) as usize;
+            let at = rng.below(p.len() as u64 + 1) as usize;
+            p.insert(at, (k, rng.chance(1, 2)));
+        }
+        if rng.chance(1, 4) && p.len() > 1 {
+            p.pop();
+        }
+        lists.push(p);
+        w.scns.push(scn);
+        arg_sets.push(lists);
+    }
+    let mut jobs = vec![];
+    for no in first_gen..w.scns.len() {
+        for l in &arg_sets[no] {
+            jobs.extend(jobs_for(no, l, &Opts::none(3)));
+        }
+    }
+    for p in &plans {
+        jobs.extend(jobs_for(p.scn, &p.args, &p.opts));
+    }
+    w.run_jobs(jobs, par);
+    // phase 2: option combinations, knowing the size of the input and the number of lifecycles
+    for no in first_gen..w.scns.len() {
+        for (li, l) in arg_sets[no].clone().iter().enumerate() {
+            let pb = parse_out(&w.scns[no], w.get(no, l, &Opts::none(3)), 3);
+            let t = truth(&w.scns[no], &pb.screen);
+            plans.push(Plan { scn: no, args: l.clone(), opts: Opts::none(3), tags: vec!["baseline"] });
+            if li == 0 {
+                // lifecycle listing + the whole input written to a file
+                let mut o = Opts::none(0);
+                o.ofile = true;
+                plans.push(Plan { scn: no, args: l.clone(), opts: o, tags: vec!["listing"] });
+            }
+            let k = if li == 0 { 4 } else { 1 };
+            for _ in 0..k {
+                let o = gen_opts(&mut rng, &w.scns[no], pb.screen.len(), t.rows.len() as u32, t.lc_of.is_some());
+                plans.push(Plan { scn: no, args: l.clone(), opts: o, tags: vec!["options"] });
+            }
+        }
+    }
+    let mut jobs = vec![];
+    for p in &plans {
+        jobs.extend(jobs_for(p.scn, &p.args, &p.opts));
+    }
+    w.run_jobs(jobs, par);
+    for p in &plans {
+        record(&mut sink, &w, p.scn, &p.args, &p.opts, &p.tags);
+    }
+    sink.extra_stats.insert("invocations".into(), json!(w.invocations));
+    sink.extra_stats.insert("scenarios".into(), json!(w.scns.len()));
+    sink.finish();
 }
